@@ -8,7 +8,7 @@
  *             I<num>:<val> coap_insert_option, U<num>:<val> coap_update_option, R<num> coap_remove_option,
  *             K<val> coap_update_token, D<val> coap_add_data
  *     <val>/<wire> = hex, `-` (empty) or `*<len>*<seed>` (byte i = (seed + 7 i + 13 (i / 256)) mod 256)
- *   output: steps=<rc>.<used_size>.<fnv32(buffer)>,… hdr=<n> bytes=<D> built=<accessor dump> reparse=<dump|rej>
+ *   output: [edit: start=<used_size>.<fnv32(buffer)>] steps=<rc>.<used_size>.<fnv32(buffer)>,… hdr=<n> bytes=<D> built=<accessor dump> reparse=<dump|rej>
  *           (byte strings longer than 48 bytes as #<len>.<fnv32>.<first 8>..<last 8>)
  */
 #include "coap3/coap_libcoap_build.h"
@@ -257,7 +257,11 @@ static void do_edit(char **w) {
   pdu = coap_pdu_init(0, 0, 0, ms);
   if (!pdu) { printf("fail"); free(wire); return; }
   if (!parse_into(p, wire, len, pdu)) printf("rej");
-  else run_ops(p, pdu, w[4]);
+  else {
+    /* digest of the buffer the edits start from (so that 'a refused call changes nothing' is observable per call) */
+    printf("start=%zu.%08x ", pdu->used_size, fnv32(pdu->token, pdu->used_size));
+    run_ops(p, pdu, w[4]);
+  }
   coap_delete_pdu(pdu);
   free(wire);
 }
